@@ -4,6 +4,7 @@ import Netpol.Proofs.FormatExposure
 import Netpol.Proofs.FormatParseX
 import Netpol.Proofs.FormatDotNodes
 import Netpol.Proofs.FormatDiffEngine
+import Netpol.Proofs.FormatExposureCsv
 /-! C09 — every output format faithfully encodes the computed result.
 
 The formatters are modelled byte for byte in `Model/Format.lean` (tied to the Go code by the K-diff of the `fmt` family:
@@ -39,8 +40,9 @@ What is and is not covered:
   field); txt — no blank in the exposed peer's string and no colon in the connection string (the other end may hold
   blanks, commas, colons and brackets: representative peers). Not covered: parse-back of the dot graph with exposure
   results (its order independence is in `Properties/C08/Format.lean`). -/
+open List
 namespace Netpol.Properties.C09
-open Netpol Format Engine List
+open Netpol Format Engine
 
 -- ------------------------------------------------------------------------------------------
 -- the triples of the computed result
@@ -341,6 +343,45 @@ theorem exposure_csv_output_determines_tables {c c' : List Conn} (p p' : List Pe
   have a := exposure_csv_parse_back p hb he hi
   rw [heq, exposure_csv_parse_back p' hb' he' hi'] at a
   exact tables_eq_perm (Option.some.inj a).symm
+
+/-- **csv with exposure sections, on the computed exposure run** (the arguments `runWFmt` hands to `listToStringX`): the
+per-row conditions of `exposure_csv_parse_back` are theorems (`Proofs/FormatExposureCsv.lean`). What remains are
+input-level, decidable hypotheses, all implied by Kubernetes syntax: `PodsReal`, `PodPortsValid`, `NPRulesValid` (real
+pods, legal container ports, rules as the API server accepts them — they make the exposure entries the specified ones, so
+that the named ports of a connection string are port names of policy rules), `NamesCs` (no `"` / newline in namespace,
+name, owner name, owner kind of a pod) and `PoliciesCs` (none in a policy's namespace, in the keys and values of the
+selectors of its rule peers, in its port names). -/
+theorem computed_exposure_csv_parse_back {objs : List Obj} {focus : String} {stop : Bool} {r : Report} {xs : List XPeerF}
+    (h : reportX objs focus stop = .ok (r, xs)) (hr : PermLayer.PodsReal objs) (hpp : PermLayer.PodPortsValid objs)
+    (hv : PermLayer.NPRulesValid objs) (hn : NamesCs objs) (hs : PoliciesCs objs) :
+    parseCsvX (listToStringX "csv" (r.entries.map Conn.ofEntry) (r.dotPeers.map PeerInfo.ofLPeer) xs) =
+      some (table (r.entries.map Conn.ofEntry), egressRows (r.entries.map Conn.ofEntry) xs,
+        ingressRows (r.entries.map Conn.ofEntry) xs) := by
+  obtain ⟨hb, hx⟩ := reportX_csv_rows h hr hpp hv hn hs
+  exact exposure_csv_parse_back _ hb (hx false) (hx true)
+
+/-- two computed exposure runs with the same csv output have the same triples and the same exposure rows -/
+theorem computed_exposure_csv_output_determines_tables {objs objs' : List Obj} {focus focus' : String} {stop stop' : Bool}
+    {r r' : Report} {xs xs' : List XPeerF}
+    (h : reportX objs focus stop = .ok (r, xs)) (hr : PermLayer.PodsReal objs) (hpp : PermLayer.PodPortsValid objs)
+    (hv : PermLayer.NPRulesValid objs) (hn : NamesCs objs) (hs : PoliciesCs objs)
+    (h' : reportX objs' focus' stop' = .ok (r', xs')) (hr' : PermLayer.PodsReal objs') (hpp' : PermLayer.PodPortsValid objs')
+    (hv' : PermLayer.NPRulesValid objs') (hn' : NamesCs objs') (hs' : PoliciesCs objs')
+    (heq : listToStringX "csv" (r.entries.map Conn.ofEntry) (r.dotPeers.map PeerInfo.ofLPeer) xs =
+      listToStringX "csv" (r'.entries.map Conn.ofEntry) (r'.dotPeers.map PeerInfo.ofLPeer) xs') :
+    (r.entries.map Conn.ofEntry).map Conn.row ~ (r'.entries.map Conn.ofEntry).map Conn.row ∧
+    xRows (r.entries.map Conn.ofEntry) xs false ~ xRows (r'.entries.map Conn.ofEntry) xs' false ∧
+    xRows (r.entries.map Conn.ofEntry) xs true ~ xRows (r'.entries.map Conn.ofEntry) xs' true := by
+  obtain ⟨hb, hx⟩ := reportX_csv_rows h hr hpp hv hn hs
+  obtain ⟨hb', hx'⟩ := reportX_csv_rows h' hr' hpp' hv' hn' hs'
+  exact exposure_csv_output_determines_tables _ _ hb (hx false) (hx true) hb' (hx' false) (hx' true) heq
+
+/-- the input-level hypotheses hold of the example world `exXObjs` (`Proofs/FormatExposureEngine.lean`) -/
+example {focus : String} {r : Report} {xs : List XPeerF} (h : reportX exXObjs focus = .ok (r, xs)) :
+    parseCsvX (listToStringX "csv" (r.entries.map Conn.ofEntry) (r.dotPeers.map PeerInfo.ofLPeer) xs) =
+      some (table (r.entries.map Conn.ofEntry), egressRows (r.entries.map Conn.ofEntry) xs,
+        ingressRows (r.entries.map Conn.ofEntry) xs) :=
+  computed_exposure_csv_parse_back h (by decide) (by decide) (by decide) (by decide) (by decide)
 
 theorem exposure_md_output_determines_tables {c c' : List Conn} (p p' : List PeerInfo) {xs xs' : List XPeerF}
     (hb : ∀ x ∈ c, x.row.MdWF) (he : ∀ r ∈ xRows c xs false, r.MdWF) (hi : ∀ r ∈ xRows c xs true, r.MdWF)
